@@ -20,7 +20,8 @@ MANIFEST = {
             "an independently written specification encoder over the objects (C09_observe_eq_spec, all classes, nested); scan "
             "gating per component kind; absent / deleted / node-not-ON read as default with operating_status still reported; slot "
             "i+1 reads configured component i, padding reads default, ACL entry i is list position i; the folder cache equals the "
-            "visible health at every step of every scan-coherent trajectory; NMNE memory holds the previous counters. "
+            "visible health at every step of every scan-coherent trajectory; NMNE memory holds the previous counters, and the NMNE "
+            "leaves follow the observed interface's OWN network settings (C09_nmne_follows_interface; F-10 repaired). "
             "WHICH option governs which leaf is proved from the scenario's words (Model/ObsConfig): the effective option of a host "
             "= host-level value if given, else nodes-level value, else the documented default, for every inheritable option "
             "(C09_effective_options, full since the F-C09-3 repair; counterexample for the old default proved), likewise routers / "
